@@ -27,6 +27,8 @@ structure St where
   acc : List Nat := []
   gspec : List GSpecEntry := []
   gclock : Nat := 0
+  /-- unsecured sessions: epoch state of the specification, built from the implementation's verdicts -/
+  pspec : PSpec := PSpec.init
 
 def verdict (b : Bool) : String := if b then "acc" else "dup"
 
@@ -104,14 +106,23 @@ def step (st : St) (line : String) : St × String :=
       let enc := st.kind ≠ Kind.plain
       let r := postRecvPlain st.rx c enc
       let implAcc := out = "acc"
-      -- oracle (secure unicast only): the set-based specification over the implementation's own verdicts
+      -- oracle: the set-based specification over the implementation's own verdicts
+      -- (secure unicast: exact; unsecured: what the property demands, with the restart rule --
+      -- silent for a first-timer below the restart point)
       let ora : Option String :=
         if st.kind = Kind.unicast then
           let want := specAccept st.acc c
           if want = implAcc then none
           else some s!"spec={verdict want} impl={out} accepted_so_far={st.acc.take 8}"
+        else if st.kind = Kind.plain then
+          match specPlainDemand st.pspec c with
+          | some want =>
+            if want = implAcc then none
+            else some s!"unsecured spec={verdict want} impl={out} restart_point={st.pspec.floor} accepted_since={st.pspec.acc.take 8}"
+          | none => none
         else none
-      let st' := { st with rx := r.1, acc := if implAcc then c :: st.acc else st.acc }
+      let st' := { st with rx := r.1, acc := if implAcc then c :: st.acc else st.acc,
+                           pspec := specPlainNext st.pspec c implAcc }
       match ora with
       | some why => (st', s!"ORA {why}")
       | none => if verdict r.2 = out then (st', "ok") else (st', s!"DIS {verdict r.2}")
